@@ -954,8 +954,11 @@ class FortranReaderBase:
             ):
                 # ;-separator not recognized in pyf-mode
                 items = []
-                # Deal with each Fortran statement separately.
-                split_line_iter = iter(item.get_line().split(";"))
+                # Deal with each Fortran statement separately. The text is
+                # tokenised without changing its case so that the names in
+                # each statement keep their spelling.
+                tokenised_line, str_map = string_replace_map(item.line, lower=False)
+                split_line_iter = iter(tokenised_line.split(";"))
                 first = next(split_line_iter)
                 # The full line has already been processed as a Line
                 # object in 'item' (and may therefore have label
@@ -967,7 +970,7 @@ class FortranReaderBase:
                 # statement (rather than the full line). Subsequent
                 # statements need to be processed into Line
                 # objects.
-                items.append(item.copy(first.strip(), apply_map=True))
+                items.append(item.copy(str_map(first.strip())))
                 for line in split_line_iter:
                     # Any subsequent statements have not been processed
                     # before, so new Line objects need to be created.
@@ -981,7 +984,7 @@ class FortranReaderBase:
                         # using the existing span (line numbers) and
                         # reader.
                         new_line = Line(
-                            item.apply_map(line), item.span, label, name, item.reader
+                            str_map(line), item.span, label, name, item.reader
                         )
                         items.append(new_line)
                 items.reverse()
